@@ -322,6 +322,34 @@ func (ex *Exec) call(in *ssa.Call, cc *ssa.CallCommon, r Term) {
 			v.Typ = in.Type()
 			ex.vals[in] = v
 		}
+		if ex == ex.top && ex.fc != nil && len(ex.fc.CallNames) > 0 {
+			name := calleeName(cc)
+			for _, cn := range ex.fc.CallNames {
+				if !strings.Contains(name, cn.Callee) {
+					continue
+				}
+				key := "callname:" + cn.Callee
+				n := ex.count[key]
+				if n == cn.Ordinal && !ex.callSeen[cn.Name] {
+					ex.callSeen[cn.Name] = true
+					if v.K == KTuple {
+						for i, f := range v.Fields {
+							ex.named[fmt.Sprintf("%s%d", cn.Name, i)] = f
+						}
+					} else {
+						ex.named[cn.Name] = v
+					}
+					ex.named[cn.Name+"_reached"] = boolVal(r)
+				}
+			}
+			seenC := map[string]bool{}
+			for _, cn := range ex.fc.CallNames {
+				if strings.Contains(name, cn.Callee) && !seenC[cn.Callee] {
+					seenC[cn.Callee] = true
+					ex.count["callname:"+cn.Callee]++
+				}
+			}
+		}
 	}
 	resType := func() types.Type {
 		if in != nil {
@@ -336,6 +364,7 @@ func (ex *Exec) call(in *ssa.Call, cc *ssa.CallCommon, r Term) {
 		}
 		v := c.freshVal(rt, ex.nm(hint))
 		v.Typ = rt
+		c.assume(ex.v.wfAssume(c, v))
 		return v
 	}
 	pos := cc.Pos()
@@ -474,12 +503,14 @@ func (ex *Exec) applyContract(fc *FuncContract, fn *ssa.Function, cc *ssa.CallCo
 		pre.vars[l.Name] = v
 	}
 	for _, rq := range fc.Requires {
-		t, err := pre.Bool(rq.E)
+		t, err := pre.Goal(rq.E)
 		if err != nil {
 			unsup("contract %s requires: %v", calleeDisp, err)
 		}
 		ex.addObl("pre:"+calleeDisp, rq.Label, r, t, cc.Pos(), rq.Text, false)
-		c.assume(imp(r, t))
+		if at, err := pre.Bool(rq.E); err == nil {
+			c.assume(imp(r, at))
+		}
 	}
 	// effect
 	if !fc.HasMod {
@@ -512,6 +543,7 @@ func (ex *Exec) applyContract(fc *FuncContract, fn *ssa.Function, cc *ssa.CallCo
 	for i := 0; i < nres; i++ {
 		rv := c.freshVal(sig.Results().At(i).Type(), ex.nm("r_"+sanitize(fc.Name)))
 		rv.Typ = sig.Results().At(i).Type()
+		c.assume(ex.v.wfAssume(c, rv))
 		rvals = append(rvals, rv)
 		post.vars[fmt.Sprintf("result%d", i)] = rv
 		if n := sig.Results().At(i).Name(); n != "" && n != "_" {
@@ -527,6 +559,15 @@ func (ex *Exec) applyContract(fc *FuncContract, fn *ssa.Function, cc *ssa.CallCo
 		res = Val{K: KTuple}
 	}
 	for _, en := range fc.Ensures {
+		internal := false
+		for _, cn := range fc.CallNames {
+			if strings.Contains(en.Text, cn.Name) {
+				internal = true // speaks about a call inside the callee: not visible here
+			}
+		}
+		if internal {
+			continue
+		}
 		t, err := post.Bool(en.E)
 		if err != nil {
 			unsup("contract %s ensures: %v", calleeDisp, err)
